@@ -250,9 +250,9 @@ def main(tier, seed, collect=None):
                         h, ci = lab.split("/")
                         klass = "malformed" if diff.startswith("does not compile") else "misbehaves"
                         total.fail(key, int(ci), klass, "runtime %s: %s" % (r, diff), {"source": src_of[key][0], "output": text[:2000], "runtime": r, "host": h}, host="conv-%s>run-%s" % (h, r))
-            if nsample < 4 and key.startswith("c15:fshape"):
+            if nsample < 4 and (key.startswith("c15:syntax:") or nsample < 2) and ents:
                 nsample += 1
-                total.sample({"key": key, "runtime": r, "source": src_of[key][0], "texts": len(ents)})
+                total.sample({"key": key, "runtime": r, "source": src_of[key][0], "distinct_texts": len(ents), "one_text": ents[0][0][:300]})
     # 4. syntax portability of the oneliner unparser on expression trees (C03's space):
     #    the text must parse, to the same tree, on every runtime on which the tree is denotable
     #    (witness: the host's ast.unparse text, or python3.9's re-rendering of it)
